@@ -117,6 +117,8 @@ func pkgFiles(id int, r *fw.Rand) map[string]string {
 		"other/main.tf":    fmt.Sprintf("# other of content %d\n", id),
 		"other/data/x.txt": "x",
 		"mod/c++/main.tf":  fmt.Sprintf("# mod/c++ of content %d\n", id),
+		// a directory whose name ends in dots is a directory like any other
+		"other/v1.../main.tf": fmt.Sprintf("# other/v1... of content %d\n", id),
 	}
 	if r != nil && r.Chance(1, 3) {
 		f["mod/a b.tf"] = "spaced"
@@ -130,9 +132,9 @@ func pkgFiles(id int, r *fw.Rand) map[string]string {
 func localDeps(loc string) []string {
 	switch loc {
 	case "":
-		return []string{"./mod", "./mod/sub", "./other", "./"}
+		return []string{"./mod", "./mod/sub", "./other", "./", "./other/v1..."}
 	case "mod":
-		return []string{"./sub", "../other", "../", "./", "../mod/sub"}
+		return []string{"./sub", "../other", "../", "./", "../mod/sub", "../other/v1..."}
 	case "mod/sub":
 		return []string{"../", "../../other", "../..", "./", "../sub"}
 	default:
